@@ -2,6 +2,7 @@ package mon
 
 import (
 	"fmt"
+	"strings"
 	"time"
 
 	"github.com/go-i2p/common/destination"
@@ -270,7 +271,50 @@ func c09Paths() []identPath {
 	}
 }
 
+// c09Covered maps every exported function / method whose result type mentions Destination or
+// RouterIdentity to the path(s) of c09Paths that exercise it. A census entry missing here
+// makes the run inconclusive (a new way to obtain an identity is not yet monitored).
+var c09Covered = map[string]string{
+	"destination.NewDestination":                               "destination.NewDestination(...)",
+	"destination.NewDestinationFromBytes":                      "destination.NewDestinationFromBytes",
+	"destination.ReadDestination":                              "destination.ReadDestination",
+	"encrypted_leaseset.CreateBlindedDestination":              "encrypted_leaseset.CreateBlindedDestination",
+	"lease_set2.(*LeaseSet2).Destination":                      "lease_set2.ReadLeaseSet2 + encrypted_leaseset.DecryptInnerData",
+	"lease_set.(LeaseSet).Destination":                         "lease_set.ReadLeaseSet",
+	"lease_set.ReadDestinationFromLeaseSet":                    "lease_set.ReadDestinationFromLeaseSet",
+	"meta_leaseset.(*MetaLeaseSet).Destination":                "meta_leaseset.ReadMetaLeaseSet",
+	"router_identity.(*RouterIdentity).AsDestination":          "router_identity.RouterIdentity.AsDestination",
+	"router_identity.NewRouterIdentity":                        "router_identity.NewRouterIdentity",
+	"router_identity.NewRouterIdentityFromBytes":               "router_identity.NewRouterIdentityFromBytes",
+	"router_identity.NewRouterIdentityFromKeysAndCert":         "router_identity.NewRouterIdentityFromKeysAndCert(ReadKeysAndCert)",
+	"router_identity.NewRouterIdentityWithCompressiblePadding": "router_identity.NewRouterIdentityWithCompressiblePadding",
+	"router_identity.ReadRouterIdentity":                       "router_identity.ReadRouterIdentity",
+	"router_info.(*RouterInfo).RouterIdentity":                 "router_info.ReadRouterInfo",
+}
+
+func c09CensusGaps() []string {
+	var gaps []string
+	for _, f := range lib.CensusFuncs {
+		res := f.Results
+		if !(strings.Contains(res, "Destination") || strings.Contains(res, "RouterIdentity")) {
+			continue
+		}
+		name := f.Pkg + "." + f.Name
+		if f.Recv != "" {
+			name = f.Pkg + ".(" + f.Recv + ")." + f.Name
+		}
+		if _, ok := c09Covered[name]; !ok {
+			gaps = append(gaps, name+" -> "+res)
+		}
+	}
+	return gaps
+}
+
 func runC09(c *core.Ctx) {
+	if gaps := c09CensusGaps(); len(gaps) > 0 && c.Shard == 0 {
+		c.FloorFail("census gap: exported functions yielding a Destination/RouterIdentity without a monitored path: " + strings.Join(gaps, "; "))
+	}
+	c.SetExtra("identity_yielding_api_in_census", int64(len(c09Covered)))
 	sigs := []int{}
 	for i := 0; i <= 20; i++ {
 		sigs = append(sigs, i)
